@@ -111,6 +111,24 @@ Section Protocol.
   Theorem C17_one_command_per_call evs : percall_ok (log (run_events fe clock evs)) = true.
   Proof. exact (main_percall fe clock Hfe evs). Qed.
 
+  (* spelled out: no call sends two commands; every command names the verb and prefix of a call that was
+     entered; a call returns only after its command went out *)
+  Theorem C17_one_command_per_call_meaning evs :
+    let l := log (run_events fe clock evs) in
+    NoDup (map m_call (sends l)) /\
+    (forall c, In c (sends l) -> exists a, In (OCall (m_call c) (m_kind c) (m_prefix c) a) l) /\
+    (forall l1 id r o l2, l = l1 ++ ODone id r o :: l2 -> exists c, In c (sends l1) /\ m_call c = id).
+  Proof. exact (main_percall_meaning fe clock Hfe evs). Qed.
+
+  (* progress of the timestamp loop: the call that holds the semaphore and sleeps with l readings left has its
+     command on the face after at most l+1 ticks, whatever the clock does *)
+  Theorem C17_command_goes_out evs l id :
+    (forall k, exists n, p_ts (fe k) = TsLoop n true) ->
+    status (run_events fe clock evs) id = Some (CSleep l) ->
+    exists n, (n <= S l)%nat /\
+              status (fold_left (step fe clock) (repeat ETick n) (run_events fe clock evs)) id = Some COut.
+  Proof. exact (main_holder_sends fe clock Hfe evs l id). Qed.
+
   (* on every connection the starting task registers every declared route exactly once, in order, and
      finishes without an exception *)
   Theorem C17_autoreg_once_per_connection evs : autoreg_ok (log (run_events fe clock evs)) = true.
@@ -123,6 +141,8 @@ Print Assumptions C17_one_at_a_time.
 Print Assumptions C17_one_at_a_time_meaning.
 Print Assumptions C17_timestamps_strictly_increase.
 Print Assumptions C17_one_command_per_call.
+Print Assumptions C17_one_command_per_call_meaning.
+Print Assumptions C17_command_goes_out.
 Print Assumptions C17_autoreg_once_per_connection.
 
 (* ---- non-vacuity ----------------------------------------------------------------------------------------------------- *)
